@@ -29,7 +29,20 @@
 //! Deviations from DESIGN.md: Parquet `WITH ORDER` sources are not used here (C24 covers declared file orders);
 //! declared orderings come from `MemTable::with_sort_order`.
 //!
-//! Sensitivity probes: see the end of this header.
+//! Known findings (open, /verif/known_findings.json; outcome-keyed: a case is excluded only when it fails and every
+//! violated claim in it is an instance of an open finding): `outer-join-constant-of-null-padded-side` (WRONG RESULT,
+//! fix verified), `running-window-aggregate-ordering-ignores-leading-nulls` (WRONG RESULT, fix verified),
+//! `topk-aggregate-keeps-input-ordering` (fix verified), `merge-keeps-orderings-other-than-the-merge-key`,
+//! `sliding-window-count-declared-monotonic` (no repair proposed), `join-suffix-ordering-with-tied-probe-keys` (WRONG RESULT;
+//! fix fixes/C28-join-suffix-ordering-with-tied-probe-keys.diff written, applies, NOT verified with mutrun).
+//! Panics of operators during a node's execution are carried as node errors (label `node-panic`), not judged.
+//!
+//! Sensitivity probes (probes.diff, env-gated `VFW_MUT=<name>`, run with tools/mutrun on top of the fix patches):
+//! * `repart-order` — RepartitionExec::maintains_input_order always true: CAUGHT at quick tier (95 cases: "RepartitionExec
+//!   … declares the ordering [p@2 ASC] but partition 0 has row 2 = (false) followed by row 3 = (Null)").
+//! * `hj-order` — HashJoinExec keeps the probe-side order for Left/Full joins: the run fails, but through a planner
+//!   `unreachable!()` the mutation triggers, not through a data check — not counted as caught.
+//! * `neg-order` — NegativeExpr keeps instead of reversing the sort direction: patch written, NOT RUN (time).
 use datafusion::arrow::array::{ArrayRef, RecordBatch};
 use datafusion::arrow::compute::SortOptions;
 use datafusion::physical_expr::equivalence::AcrossPartitions;
@@ -394,6 +407,12 @@ pub fn check_node(n: &WalkNode, f: &mut Facts) -> Result<(), String> {
     Ok(())
 }
 
+/// the violated ordering named in the message has two or more keys
+fn multi_key_ordering(msg: &str) -> bool {
+    let after = msg.split_once("declares the ordering [").or_else(|| msg.split_once("declares output_ordering() [")).map(|(_, r)| r);
+    after.and_then(|r| r.split_once("] but partition")).map(|(o, _)| o.contains(", ")).unwrap_or(false)
+}
+
 fn is_ordering(msg: &str) -> bool {
     msg.contains("declares the ordering") || msg.contains("declares output_ordering()")
 }
@@ -422,6 +441,12 @@ pub fn check(w: &Walk) -> (Facts, Vec<Finding>) {
                 // known finding: an order-preserving merge keeps every ordering of its input's equivalence class although it
                 // only merges by one of them
                 Some("merge-keeps-orderings-other-than-the-merge-key".to_string())
+            } else if is_ordering(&msg) && multi_key_ordering(&msg) && walk::subtree_has(&n.plan, &|p| {
+                let kids = p.children();
+                p.name().contains("Join") && kids.len() == 2 && kids.iter().all(|k| !k.properties().equivalence_properties().oeq_class().is_empty())
+            }) {
+                // known finding: a join declares [probe-side ordering, build-side ordering] although probe rows may tie on their key
+                Some("join-suffix-ordering-with-tied-probe-keys".to_string())
             } else {
                 None
             };
